@@ -82,9 +82,12 @@ def run_shard(sh, tier, seed):
 
 
 def run_long(rec, tier, seed):
-    """Lengths beyond 8-bit counts and the default batch size (A*W = 1200 and 2000 mutants per example), default arguments."""
+    """Lengths beyond 8-bit counts and the default batch size (A*W = 1200 and 2000 mutants per example; 10000 and 8400 - beyond
+    2^13 -, thorough 66000 - beyond 2^16), default arguments."""
     from tangermeme.ism import saturation_mutagenesis
-    for (A, L, s, e) in ((4, 300, 0, -1), (4, 300, 40, 300), (5, 400, 0, -1), (4, 70, 0, -1)):
+    for (A, L, s, e) in ((4, 300, 0, -1), (4, 300, 40, 300), (5, 400, 0, -1), (4, 70, 0, -1), (4, 2500, 0, -1), (5, 1700, 20, -1), (4, 17000, 100, 16600)):
+        if L == 17000 and tier == "quick":
+            continue
         model = Model(A, L, "tensor", seed)
         N = 2
         codes = numpy.stack([(numpy.arange(L) * (n + 3) + n + numpy.arange(L) // 7) % A for n in range(N)])
@@ -102,7 +105,7 @@ def run_long(rec, tier, seed):
                         Xm[c * Wn + (p - s), :, p] = 0
                         Xm[c * Wn + (p - s), c, p] = 1
                 yh_ref[n] = model(Xm, args[0][n:n + 1].repeat(A * Wn, 1)).reshape(A, Wn, -1)
-        for bs in (None, 1000, 255, 257):
+        for bs in ((None, 1000, 255, 257) if L <= 400 else (None, 8192, 10000)):
             kw = {} if bs is None else dict(batch_size=bs)
             case = dict(fn="saturation_mutagenesis", A=A, L=L, N=N, start=s, end=e, batch_size=bs or "default(32)", kind="tensor", args=True)
             st, val = call(saturation_mutagenesis, model, X, args=args, start=s, end=e, raw_outputs=True, device="cpu", **kw)
@@ -113,15 +116,22 @@ def run_long(rec, tier, seed):
             if not torch.equal(val[0].double(), y0_ref) or tuple(val[1].shape) != tuple(yh_ref.shape) or not torch.equal(val[1].double(), yh_ref):
                 rec.violation("ism:y_hat_misindexed:long", case)
             rec.observe(A, L, s, e, bs)
-    rec.sample(dict(kind="long", cases=[[4, 300, 0, -1], [4, 300, 40, 300], [5, 400, 0, -1], [4, 70, 0, -1]], batch_sizes=["default", 1000, 255, 257]))
+    rec.sample(dict(kind="long", cases=[[4, 300, 0, -1], [4, 300, 40, 300], [5, 400, 0, -1], [4, 70, 0, -1], [4, 2500, 0, -1], [5, 1700, 20, -1], "thorough: [4, 17000, 100, 16600]"], batch_sizes=["default", 1000, 255, 257, 8192, 10000]))
 
 
 def run_one(rec, A, L, kind, tier, seed):
     from tangermeme.ism import saturation_mutagenesis
     model = Model(A, L, kind, seed)
     rs = numpy.random.RandomState(11 + seed)
-    for N in (1, 2):
+    for (N, gap) in ((1, False), (2, False), (2, True)):
         codes = numpy.stack([(numpy.arange(L) * (n + 1) + n) % A for n in range(N)])
+        if gap:
+            # an unknown character ('N'): an all-zero column, as utils.one_hot_encode produces; the mutants at that
+            # position are still "character c at p"
+            if L < 2:
+                continue
+            codes[0, L // 2] = -1
+            codes[1, 0] = -1
         X = ohe(codes, A)
         Xc = X.clone()
         for (s, e) in _windows(L, tier):
@@ -232,7 +242,10 @@ def replay(v):
     from tangermeme.ism import saturation_mutagenesis
     c = v["case"]
     rec = Recorder(PID, "replay")
-    r = run_shard(dict(name="replay", A=c["A"], L=c["L"], kind=c["kind"]), "thorough" if c["L"] <= 5 else "quick", 0)
+    if v["sig"].endswith(":long"):
+        r = run_shard(dict(name="replay", long=True), "thorough" if c["L"] > 3000 else "quick", 0)
+    else:
+        r = run_shard(dict(name="replay", A=c["A"], L=c["L"], kind=c["kind"]), "thorough" if c["L"] <= 5 else "quick", 0)
     hit = [x for x in r["violations"] if x["sig"] == v["sig"]]
     return (not hit), "re-ran family A=%s L=%s kind=%s: %d violations with signature %s%s" % (
         c["A"], c["L"], c["kind"], r["viol_sigs"].get(v["sig"], 0), v["sig"], ("\nfirst: %s" % hit[0]) if hit else "")
